@@ -310,6 +310,9 @@ def main_pairs(pid, tier, seed, prop_codes, prop_mod, serving_files, what, mode,
         # how many of the nested configurations lie in the scope of the whole-run inlining theorem (decided in Coq)
         scope = run_shards(pid + "_scope", HEADER, "pair_case", "in_inline_scope", terms, shard_size=12)
         ck.coverage["pairs_in_scope_of_inline_theorem"] = len(scope)
+        scope2 = run_shards(pid + "_scope2", HEADER + "\nFrom TV Require Import Oracle.ScopeCheck.", "pair_case", "in_inline_scope_general",
+                            terms, shard_size=12)
+        ck.coverage["pairs_in_scope_of_inline_theorem_with_sibling_systems"] = len(scope2)
     ck.sample(dict(first=describe(pairs[-1][0]), second=describe(pairs[-1][1])))
     cases = [p[0] for p in pairs]
     report_codes(ck, pid, what, bad, cases, [r[0] for r in runs], prop_codes | {99},
